@@ -18,6 +18,8 @@ def wrapping_indices(L):
         out += [b'%d' % M, b'%d' % (M + max(L - 1, 0)), b'%d' % (M + 1)]
     return out
 NUMS = [0.0, 1.0, -1.0, 1.5, 1e20, 42.0, 2147483648.0, 0.25, -7e-3, 123456789.0,
+        # whole numbers whose integer view saturates (all alike at INT_MAX / INT_MIN)
+        2147483647.0, 3000000000.0, 4294967296.0, -2147483648.0, -2147483649.0, -1e20, 9007199254740992.0,
         # magnitudes far below 1, pairwise further apart than any tolerance could bridge
         1e-20, 3e-20, 1e-17, 5e-324, 1e-310, 3e-310, -1e-310, 2.5e-300, -2.5e-300, 6.626e-34, 2.2250738585072014e-308]
 STRS = [b'', b'x', b'X', b'hello', b'a/b', b'~', b'\xc3\xa9', b'with space', b'0']
